@@ -190,3 +190,15 @@ package verifspec
 //@   ghost readOK = false
 //@   ensures (bc == nil || (len(importPath) > 0 && (importPath == bc.TestedPackage || importPath == bc.TestedPackage + "_test"))) ==> !result && !readCalled
 //@   ensures result ==> readCalled && readOK && verified
+
+// ---- sources serializer (what a cache hit hands back): unpackFile rebuilds Imports and Comments by walking the WHOLE
+// file -- the visitor never prunes a subtree, and it records every import spec and every comment group it is shown
+// (comment groups inside function bodies included, the translator reads them for source positions).
+//@ func compiler/sources.unpackFile#lit1
+//@ property C20
+//@   ensures result
+//@   ensures typeis(n, "*go/ast.ImportSpec") ==> len(imports) == len(old(imports)) + 1 && ref(imports[len(imports) - 1]) == ref(n)
+//@   ensures !typeis(n, "*go/ast.ImportSpec") ==> len(imports) == len(old(imports))
+//@   ensures typeis(n, "*go/ast.CommentGroup") ==> len(comments) == len(old(comments)) + 1 && ref(comments[len(comments) - 1]) == ref(n)
+//@   ensures !typeis(n, "*go/ast.CommentGroup") ==> len(comments) == len(old(comments))
+//@   ensures forall(k, 0, len(old(imports)), imports[k] == old(imports)[k]) && forall(k, 0, len(old(comments)), comments[k] == old(comments)[k])
